@@ -379,15 +379,18 @@ pub fn classify(exp: &Option<Val>, got: &Option<Val>) -> String {
                         let rest_missing = a.iter().zip(b).skip(1).any(|(x, y)| x.phased != y.phased && x.allele.is_none());
                         let rest_called = a.iter().zip(b).skip(1).any(|(x, y)| x.phased != y.phased && x.allele.is_some());
                         let first_missing = first && a[0].allele.is_none();
+                        // a wrong phase bit of a missing allele also moves the implied first-allele
+                        // phasing: name the root only
                         let mut parts = Vec::new();
-                        if first && !first_missing {
-                            parts.push("first-allele");
-                        }
-                        if rest_called {
-                            parts.push("called-allele");
-                        }
                         if rest_missing || first_missing {
                             parts.push("missing-allele");
+                        } else {
+                            if first {
+                                parts.push("first-allele");
+                            }
+                            if rest_called {
+                                parts.push("called-allele");
+                            }
                         }
                         format!("Genotype:phasing:{}", parts.join("+"))
                     }
